@@ -114,6 +114,27 @@ PROPS["C05"] = dict(
     level_note="Trusted: oracle/ref.hpp::literal (own recursive parser for RFC 5321 4.1.3 and RFC 4291 2.2 text), sanitizers, shim.",
 )
 
+PROPS["C09"] = dict(
+    level="exploration",
+    default_binary="c09",
+    binaries={"c09": dict(src=["props/c09.cpp"], variants=["dflt"])},
+    stages=[
+        stage("lengths"),
+        stage("random", kind="rc", quick=4000, thorough=60000, max_size=100),
+    ],
+    rule="Valid host names without root dot built from 0-3 leading labels (every length 1-63 for one leading label; an (l1,l2) grid - complete in "
+         "thorough - for two; reserved words themselves as leading labels) followed by each of the 8 reserved suffixes and each one-edit neighbour "
+         "(insert/delete/substitute at every position, plus hand-picked neighbours such as exampleA, example.co, foo.tests), in 4 case patterns, "
+         "judged by is_special_domain, is_<mode>_email(tld on)->rc and eav_is_email with only the SPECIAL bit cleared, in 4 modes. Every counted case "
+         "ends in a reserved suffix or a neighbour of one, hence is non-trivial; distinct by domain hash.",
+    assumptions=["reference: oracle/ref.hpp::reserved (whole-label, case-insensitive match of the last one / two labels)",
+                 "domains that are not valid host names, and in mode 6531 domains the IDN library refuses, are outside the statement and skipped (counted)"],
+    min_evaluations=dict(quick=500_000, thorough=5_000_000),
+    technique="differential against a reference predicate over systematically enumerated label-length / suffix / neighbour / case combinations, plus rapidcheck generation",
+    level_text="Exploration against an explicit reference predicate; the label-length dimension the implementation branches on is enumerated completely.",
+    level_note="Trusted: oracle/ref.hpp::reserved and host_ok, sanitizers, shim.",
+)
+
 
 def stages_for(pid, tier):
     out = []
